@@ -509,6 +509,96 @@ theorem dash_p_forks_every_test (a : CliArgs) (ts : List RegTest) (h : a.separat
 /-- no statement of `initializeTestRun` is coupled to the one before it by `else` -/
 theorem init_statements_independent : initStatements.all (fun s => !s.isElse) = true := by decide
 
+/-! ## every kind of test is forked: `IGNORE_TEST` entries under run-ignored (`-ri`) -/
+
+/-- the run-ignored branch of `IgnoredUtestShell::runOneTest` goes through `UtestShell::runOneTest`,
+    i.e. through the same separate-process decision as every other test (regenerated) -/
+theorem ignored_shell_goes_through_runOneTest : ignoredRunCall = .viaRunOneTest := by decide
+
+theorem runKindsFrom_all_forked : ∀ (ts : List KTest) (idx : Nat) (gs : Bool) (st : RunState),
+    runKindsFrom .viaRunOneTest .everyTest true idx gs ts st = runTests idx (ts.map (·.script)) st
+  | [], _, _, _ => rfl
+  | t :: ts, idx, gs, st => by
+    have hh : howRun .viaRunOneTest true (sepFlag .everyTest gs) t.kind = .forked := by
+      cases t.kind <;> simp [howRun, sepFlag]
+    simp only [runKindsFrom, hh, runTests, List.map_cons, runResults]
+    split
+    · rfl
+    · exact runKindsFrom_all_forked ts (idx + 1) _ _
+
+theorem runKindsFrom_inRunner : ∀ (ts : List KTest) (ri : Bool) (idx : Nat) (gs : Bool) (st : RunState),
+    (runKindsFrom .viaRunOneTest .everyTest ri idx gs ts st).inRunner = st.inRunner
+  | [], _, _, _, _ => rfl
+  | t :: ts, ri, idx, gs, st => by
+    cases hk : t.kind <;> cases ri <;>
+      simp only [runKindsFrom, howRun, sepFlag, hk, if_true, Bool.false_eq_true, if_false]
+    all_goals first
+      | (split
+         · rfl
+         · rw [runKindsFrom_inRunner ts _ (idx + 1)]; rfl)
+      | (rw [runKindsFrom_inRunner ts _ (idx + 1)]; rfl)
+
+/-- **Whatever its kind, no test is ever executed inside the runner in separate-process mode**, with
+    or without run-ignored; and with run-ignored every entry — `TEST` or `IGNORE_TEST` — is forked
+    exactly like a registry of ordinary tests, so every theorem above (one failure per death, later
+    tests still run, overall failure) covers dying `IGNORE_TEST`s run with `-ri` as well. -/
+theorem every_kind_is_forked (ts : List KTest) (ri : Bool) :
+    (runKinds ri ts).inRunner = [] ∧ runKinds true ts = runAll (ts.map (·.script)) := by
+  unfold runKinds
+  rw [sep_flag_set_for_every_test, ignored_shell_goes_through_runOneTest]
+  exact ⟨by rw [runKindsFrom_inRunner]; rfl, runKindsFrom_all_forked ts 0 true _⟩
+
+/-- deaths of run-ignored tests are contained: all entries are started in order and the run fails
+    iff some entry added a failure -/
+theorem run_ignored_deaths_contained (ts : List KTest) (h : ∀ t ∈ ts, t.script.returns) :
+    (runKinds true ts).started = List.range ts.length ∧ (runKinds true ts).hung = false ∧
+    ((runKinds true ts).overallFailure = true ↔ ∃ t ∈ ts, (runSeparate t.script).failures ≠ []) := by
+  have hr : ∀ t ∈ ts.map (·.script), t.returns := by
+    intro t ht; obtain ⟨k, hk, rfl⟩ := List.mem_map.mp ht; exact h k hk
+  rw [(every_kind_is_forked ts true).2]
+  have h1 := later_tests_still_run _ hr
+  refine ⟨by simpa using h1.1, h1.2.2.1, ?_⟩
+  rw [overall_failure _ hr]
+  constructor
+  · rintro ⟨t, ht, hf⟩; obtain ⟨k, hk, rfl⟩ := List.mem_map.mp ht; exact ⟨k, hk, hf⟩
+  · rintro ⟨k, hk, hf⟩; exact ⟨k.script, List.mem_map.mpr ⟨k, hk, rfl⟩, hf⟩
+
+/-- what the model says about the other shape of the branch: an `IGNORE_TEST` run with `-ri` is
+    executed in the runner itself (a dying body takes the runner down) -/
+theorem ignored_in_current_process_escapes (g : Nat) (t : TestScript) (ts : List KTest) :
+    0 ∈ (runKindsFrom .inCurrentProcess .everyTest true 0 true (⟨.ignored, g, t⟩ :: ts) RunState.init).inRunner := by
+  have mono : ∀ (ts : List KTest) (idx : Nat) (gs : Bool) (st : RunState), 0 ∈ st.inRunner →
+      0 ∈ (runKindsFrom .inCurrentProcess .everyTest true idx gs ts st).inRunner := by
+    intro ts
+    induction ts with
+    | nil => intro _ _ _ h; exact h
+    | cons k ks ih =>
+      intro idx gs st h
+      cases hk : k.kind <;> simp only [runKindsFrom, howRun, sepFlag, hk, if_true]
+      · split
+        · exact h
+        · exact ih _ _ _ h
+      · exact ih _ _ _ (by simp [runInRunnerAt, h])
+  simp only [runKindsFrom, howRun, if_true]
+  exact mono _ _ _ _ (by simp [runInRunnerAt, RunState.init])
+
+/-- `-p -ri` (with any other switches): separate-process mode and run-ignored are both switched on,
+    and nothing runs inside the runner -/
+theorem dash_p_dash_ri_forks_every_kind (a : CliArgs) (ts : List KTest) (hp : a.separateProcess = true) :
+    (runCommandLineKinds a ts).inRunner = [] ∧
+    (a.runIgnored = true → runCommandLineKinds a ts = runAll (ts.map (·.script))) := by
+  have hon : separateModeOn a = true := by
+    cases a with
+    | mk v vv c p ri f => simp at hp; subst hp; exact dash_p_switches_separate_mode_on v vv c ri f
+  unfold runCommandLineKinds
+  rw [hon]; simp only [if_true]
+  refine ⟨(every_kind_is_forked ts _).1, ?_⟩
+  intro hri
+  have : runIgnoredOn a = true := by
+    cases a with
+    | mk v vv c p ri f => simp at hri hp; subst hri; subst hp; revert v vv c f; decide
+  rw [this]; exact (every_kind_is_forked ts true).2
+
 /-! ## the build without fork / waitpid / kill -/
 
 /-- **No fork on this platform:** `-p` cannot work; every test run in separate-process mode is
@@ -616,6 +706,170 @@ theorem exit_code_reports_failure (st : RunState) (h : st.runCount ≠ 0) :
   · simp [hf, h]
   · simp [hf]
 
+/-! ## the source itself: the function regenerated from the clang AST
+
+`Gen/SeparateProcessLoop.lean` is produced on every run from the typed AST of
+`SetTestFailureByStatusCode` and `GccPlatformSpecificRunTestInASeperateProcess` (macros expanded by
+the installed headers, `status` a 32-bit `int`, `amountOfRetries` a 64-bit `size_t`).  The theorems
+below say that it *is* the hand model, and restate the main results directly about it. -/
+
+open Gen.SepProcLoop
+
+/-- **The wait loop regenerated from the AST is the hand-written `parentLoop`** (as far as the
+    source can tell: texts instead of classes), for every list of waitpid results, from every
+    counter value the loop can reach, whatever `status` held before. -/
+theorem genLoop_eq_parentLoop : ∀ (outs : List WaitOutcome) (r : Nat) (st : BitVec 32), r ≤ retryBound + 1 →
+    genLoop outs (BitVec.ofNat 64 r) st = (parentLoop r outs).gen
+  | [], _, _, _ => rfl
+  | .eintr :: rest, r, st, h => by
+    rw [genLoop, waitBodyGen_eintr r st h, parentLoop_eintr]
+    by_cases hgt : r > retryBound
+    · simp [hgt, genStep, LoopResult.gen, LoopEnd.gen, giveUpFailure]
+    · have ih := genLoop_eq_parentLoop rest (r + 1) st (by omega)
+      simp only [hgt, if_false, genStep, if_true, ih, gen_prepend, List.map_nil]
+  | .error :: rest, r, st, _ => by
+    rw [genLoop, waitBodyGen_error, parentLoop_error]
+    simp [genStep, LoopResult.gen, LoopEnd.gen, waitFailure]
+  | .status s :: rest, r, st, h => by
+    have ih := genLoop_eq_parentLoop rest r s h
+    rw [genLoop, waitBodyGen_status, parentLoop_status]
+    cases hterm : (wIfExited s || wIfSignaled s)
+    · simp [genStep, ih, gen_prepend]
+    · simp [genStep, LoopResult.gen, LoopEnd.gen]
+
+/-- the whole parent side of `GccPlatformSpecificRunTestInASeperateProcess`, as regenerated -/
+theorem genRunSeparate_eq_model (t : TestScript) : genRunSeparate t = (runSeparate t).gen := by
+  unfold genRunSeparate runSeparate
+  cases t.forkOk
+  · simp [genForkFailed, forkFailedGen, LoopResult.gen, LoopEnd.gen, forkFailure, msgForkFailed]
+  · simp only [if_true]
+    exact genLoop_eq_parentLoop t.outs 0 loopInitStatus (by omega)
+
+
+/-- the regenerated `SetTestFailureByStatusCode`: one message per death event, none for exit 0 -/
+theorem source_status_failures_exact (s : BitVec 32) :
+    ∃ fs : List Failure, setTestFailureGen s = fs.map (·.text) ∧ classes fs = (classify s).expected :=
+  ⟨statusFailures s, setTestFailureGen_eq s, statusFailures_classes s⟩
+
+theorem source_status_failure_count (s : BitVec 32) :
+    (setTestFailureGen s).length = (classify s).expected.length := by
+  rw [setTestFailureGen_eq, List.length_map, ← statusFailures_classes s, classes, List.length_map]
+
+/-- **Every death is recorded once — by the code as the source has it.**  Same statement as
+    `every_death_recorded_once`, about the function regenerated from the AST: the number of failures
+    added is one per stop plus what the final status asks for, the failures are those of the hand
+    model (same texts, classes as proved there), one SIGCONT per stop, the loop is left through
+    its `while` condition exactly at the final status. -/
+theorem source_every_death_recorded_once (pre : List WaitOutcome) (s : BitVec 32) (post : List WaitOutcome)
+    (hpre : ∀ o ∈ pre, o.nonFinal = true) (hb : eintrCount pre ≤ retryBound + 1)
+    (ht : (classify s).terminal = true) :
+    (∃ fs : List Failure,
+      (genRunSeparate { forkOk := true, outs := pre ++ .status s :: post }).failures = fs.map (·.text) ∧
+      classes fs = List.replicate (stopCount pre) FailClass.stopped ++ (classify s).expected) ∧
+    (genRunSeparate { forkOk := true, outs := pre ++ .status s :: post }).failures.length
+      = stopCount pre + (classify s).expected.length ∧
+    (genRunSeparate { forkOk := true, outs := pre ++ .status s :: post }).consumed = pre.length + 1 ∧
+    (genRunSeparate { forkOk := true, outs := pre ++ .status s :: post }).conts = stopCount pre ∧
+    (genRunSeparate { forkOk := true, outs := pre ++ .status s :: post }).ended = .condFalse := by
+  have h := every_death_recorded_once pre s post hpre hb ht
+  rw [genRunSeparate_eq_model]
+  simp only [runSeparate, if_true, LoopResult.gen]
+  refine ⟨⟨_, rfl, h.1⟩, ?_, h.2.1, h.2.2.1, ?_⟩
+  · have := congrArg List.length h.1
+    simpa [classes] using this
+  · rw [h.2.2.2]; rfl
+
+/-- a signal death, as the source prints it: the last message is one of the source's message
+    literals followed by the decimal number of the signal -/
+theorem source_signal_message_names_signal (s : BitVec 32) (n : Nat) (h : classify s = .signaled n) :
+    ∃ e ∈ statusChain, setTestFailureGen s = [e.msg ++ toString n] := by
+  obtain ⟨e, he, hs⟩ := signal_message_names_signal s n h
+  exact ⟨e, he, by rw [setTestFailureGen_eq, hs]; rfl⟩
+
+/-- a normal exit adds nothing — in the regenerated function -/
+theorem source_normal_exit_no_failure (pre : List WaitOutcome) (s : BitVec 32) (post : List WaitOutcome)
+    (hpre : ∀ o ∈ pre, o.nonFinal = true) (hb : eintrCount pre ≤ retryBound + 1)
+    (hstops : stopCount pre = 0) (hs : classify s = .exited 0) :
+    (genRunSeparate { forkOk := true, outs := pre ++ .status s :: post }).failures = [] := by
+  have h := normal_exit_no_failure pre s post hpre hb hstops hs
+  rw [genRunSeparate_eq_model]
+  simp [runSeparate, LoopResult.gen, h.1]
+
+/-- fork fails: the regenerated function adds exactly its fork message and returns at once -/
+theorem source_fork_failure_reported (outs : List WaitOutcome) :
+    genRunSeparate { forkOk := false, outs := outs } =
+      { failures := [msgForkFailed], consumed := 0, conts := 0, ended := .returned } := by
+  rw [genRunSeparate_eq_model]; rfl
+
+/-- waitpid fails: one more failure and a `return` -/
+theorem source_wait_error_reported (pre post : List WaitOutcome)
+    (hpre : ∀ o ∈ pre, o.nonFinal = true) (hb : eintrCount pre ≤ retryBound + 1) :
+    (genRunSeparate { forkOk := true, outs := pre ++ .error :: post }).failures.length = stopCount pre + 1 ∧
+    (genRunSeparate { forkOk := true, outs := pre ++ .error :: post }).ended = .returned := by
+  have h := wait_error_reported pre post hpre hb
+  rw [genRunSeparate_eq_model]
+  simp only [runSeparate, if_true, LoopResult.gen]
+  refine ⟨?_, by rw [h.2.2]; rfl⟩
+  have := congrArg List.length h.1
+  simpa [classes] using this
+
+/-- **Bounded retry and no hanging — in the regenerated function:** it never uses more than
+    `retryBound + 2` interrupted waits, and it returns whenever the results contain the child's
+    death, a waitpid error or that many interruptions. -/
+theorem source_retries_bounded_and_returns (outs : List WaitOutcome) :
+    eintrCount (outs.take (genRunSeparate { forkOk := true, outs := outs }).consumed) ≤ retryBound + 2 ∧
+    ((HasFinal outs ∨ retryBound + 2 ≤ eintrCount outs) →
+      (genRunSeparate { forkOk := true, outs := outs }).ended ≠ .starved) := by
+  rw [genRunSeparate_eq_model]
+  simp only [runSeparate, if_true, LoopResult.gen]
+  refine ⟨(eintr_retries_bounded outs).1, ?_⟩
+  intro h hs
+  have := parent_returns outs h
+  cases he : (parentLoop 0 outs).ended <;> simp_all [LoopEnd.gen]
+
+/-- the loop is left through its condition exactly when the hand model says the child is gone -/
+theorem source_loop_ends_iff (outs : List WaitOutcome) :
+    (genRunSeparate { forkOk := true, outs := outs }).ended = .condFalse ↔
+      ∃ pre s post, outs = pre ++ .status s :: post ∧ (∀ o ∈ pre, o.nonFinal = true) ∧
+        eintrCount pre ≤ retryBound + 1 ∧ (classify s).terminal = true := by
+  rw [← loop_ends_iff_exited_or_signalled, genRunSeparate_eq_model]
+  simp only [runSeparate, if_true, LoopResult.gen]
+  cases (parentLoop 0 outs).ended <;> simp [LoopEnd.gen]
+
+/-! ### the child's `_exit` argument, regenerated -/
+
+/-- `_exit(initialFailureCount < result->getFailureCount())` on 64-bit counters is the hand model's
+    exit code, shifted into the status word -/
+theorem genChildStatus_eq (i f : Nat) (hi : i < 2 ^ 64) (hf : f < 2 ^ 64) :
+    genChildStatus i f = BitVec.ofNat 32 (childExitCode i f * 256) := by
+  unfold genChildStatus childExitGen childExitCode
+  simp only [BitVec.ult, BitVec.toNat_ofNat, Nat.mod_eq_of_lt hi, Nat.mod_eq_of_lt hf]
+  by_cases h : i < f <;> simp [h] <;> decide
+
+/-- **A child that records any new failure exits non-zero, one that records none exits 0 — whatever
+    number of failures the shared result object already held** (the count the earlier tests left),
+    as long as the 64-bit counter does not wrap. -/
+theorem source_child_exit_status (steps : List ChildStep) (initial : Nat) (h : noDeath steps = true)
+    (hw : initial + addedBy steps < 2 ^ 64) :
+    classify (genChildStatus initial (initial + addedBy steps)) = .exited (if addedBy steps = 0 then 0 else 1) ∧
+    genChildStatus initial (initial + addedBy steps) = childStatus initial initial steps := by
+  have e := genChildStatus_eq initial (initial + addedBy steps) (by omega) hw
+  rw [e, ← childStatus_no_death steps initial initial h]
+  exact ⟨child_exit_status steps initial h, rfl⟩
+
+/-- child and parent, both regenerated: the child's verdict arrives in the parent as exactly one
+    failure, or none -/
+theorem source_failing_child_recorded_once (steps : List ChildStep) (initial : Nat) (h : noDeath steps = true)
+    (hw : initial + addedBy steps < 2 ^ 64) (post : List WaitOutcome) :
+    (genRunSeparate ⟨true, .status (genChildStatus initial (initial + addedBy steps)) :: post⟩).failures.length
+      = (if addedBy steps = 0 then 0 else 1) := by
+  have hc := (source_child_exit_status steps initial h hw).1
+  have := (source_every_death_recorded_once [] (genChildStatus initial (initial + addedBy steps)) post (by simp)
+    (by simp [eintrCount]) (by rw [hc]; rfl)).2.1
+  simp only [List.nil_append, stopCount_nil, Nat.zero_add] at this
+  rw [this, hc]
+  by_cases h0 : addedBy steps = 0 <;> simp [h0, StatusClass.expected]
+
 /-! ## non-vacuity: concrete scripts that meet the hypotheses -/
 
 /-- two interrupted waits, a stop (SIGSTOP), one more interrupted wait, then SIGSEGV with core -/
@@ -637,8 +891,22 @@ example : HasFinal [.eintr, .status 0x137f#32, .error] := ⟨.error, by simp, rf
 example : (runRegistry [⟨7, ⟨true, [.status 0#32]⟩⟩, ⟨7, ⟨true, [.status 9#32]⟩⟩, ⟨7, ⟨true, [.status 0#32]⟩⟩]).started = [0, 1, 2] ∧
     (runRegistry [⟨7, ⟨true, [.status 0#32]⟩⟩, ⟨7, ⟨true, [.status 9#32]⟩⟩, ⟨7, ⟨true, [.status 0#32]⟩⟩]).inRunner = [] ∧
     (runRegistry [⟨7, ⟨true, [.status 0#32]⟩⟩, ⟨7, ⟨true, [.status 9#32]⟩⟩, ⟨7, ⟨true, [.status 0#32]⟩⟩]).failureCount = 1 := by decide
+/-- an `IGNORE_TEST` killed by SIGKILL between two ordinary tests, run with `-ri`: forked, recorded once -/
+example : (runKinds true [⟨.normal, 1, ⟨true, [.status 0#32]⟩⟩, ⟨.ignored, 1, ⟨true, [.status 9#32]⟩⟩, ⟨.normal, 1, ⟨true, [.status 0#32]⟩⟩]).started = [0, 1, 2] ∧
+    (runKinds true [⟨.normal, 1, ⟨true, [.status 0#32]⟩⟩, ⟨.ignored, 1, ⟨true, [.status 9#32]⟩⟩, ⟨.normal, 1, ⟨true, [.status 0#32]⟩⟩]).failureCount = 1 ∧
+    (runKinds false [⟨.normal, 1, ⟨true, [.status 0#32]⟩⟩, ⟨.ignored, 1, ⟨true, [.status 9#32]⟩⟩, ⟨.normal, 1, ⟨true, [.status 0#32]⟩⟩]).failureCount = 0 ∧
+    (runKinds false [⟨.normal, 1, ⟨true, [.status 0#32]⟩⟩, ⟨.ignored, 1, ⟨true, [.status 9#32]⟩⟩, ⟨.normal, 1, ⟨true, [.status 0#32]⟩⟩]).runCount = 2 := by decide
 /-- plugin pre ok, setup ok, body fails one check, teardown ok, plugin post reports a leak -/
 example : classify (childStatus 3 3 [.adds 0, .adds 0, .adds 1, .adds 0, .adds 1]) = .exited 1 := by decide
 example : childStatus 0 0 [.adds 0, .adds 1, .dies 0x8b#32, .adds 0] = 0x8b#32 := by decide
+/-- the regenerated function on the first script above: same texts, same counts -/
+example : (genRunSeparate ⟨true, [.eintr, .eintr, .status 0x137f#32, .eintr, .status 0x8b#32, .status 0#32]⟩).failures
+    = ["Stopped in separate process - continuing", "Failed in separate process - killed by signal 11"] ∧
+    (genRunSeparate ⟨true, [.eintr, .eintr, .status 0x137f#32, .eintr, .status 0x8b#32, .status 0#32]⟩).consumed = 5 ∧
+    (genRunSeparate ⟨true, [.eintr, .eintr, .status 0x137f#32, .eintr, .status 0x8b#32, .status 0#32]⟩).conts = 1 := by decide
+example : (genRunSeparate ⟨true, List.replicate (retryBound + 2) .eintr ++ [.status 0#32]⟩).ended = .returned := by decide
+example : (genRunSeparate ⟨true, List.replicate (retryBound + 1) .eintr ++ [.status 0#32]⟩).ended = .condFalse := by decide
+/-- 7 failures from earlier tests, this child's plugin reports two more: exit status 1 -/
+example : genChildStatus 7 9 = 0x100#32 ∧ genChildStatus 7 7 = 0#32 ∧ genChildStatus 0 300 = 0x100#32 := by decide
 
 end SepProc
